@@ -100,6 +100,11 @@ CHECKS = {
         "Exploration: generated and enumerated texts (letters, digits, '_', . | + * ( ) [ ] backslash, quotes, new line, tab) as t1,t2,t3 in 'S: t1 t2 | t3 ID' with optional KEYWORD regex (5 choices), 3 identifier regexes, both quote styles, ignore_case; the inline grammar must construct iff the declared one does and both LR parsers must agree on every probe input (concatenations of the texts/identifiers/spaces, glued and case-changed variants); the declared parser must agree with the reference scanner on result values, rejection position and ambiguity.",
         "Trusted: reference scanner in pv/props/c19.py. Known findings by text predicate: D11a (dot), D11b (backslash followed by n/t/quote/backslash: double unescape), D11c (text equals a rule name), D11d (EMPTY/STOP); each relaxes only the clause it concerns and cases are still generated and counted.",
         "DESIGN.md section 6/C19"),
+    "C20": (
+        "differential PBT: modular grammars written to a temporary directory (generated import graphs: chain, diamond, cycle, arbitrary; aliases; sub-directories; qualified references of any depth; overrides) vs the single-file grammar produced by an own flattener; recorded behaviour on a deterministic override + multi-path corpus",
+        "Exploration: generated sets of 2-4 grammar files with rules and declared terminals, every import graph shape, aliases, '../' paths and overrides of rules and terminals in the root or an intermediate file; the modular grammar (Grammar.from_file) must be accepted iff every reference/override target exists, must have as many non-terminals/terminals as the flattened grammar (each file once), and LR (when both construct) and GLR must give the same results and error positions as the flattened grammar on every token string up to 3-4 tokens.",
+        "Trusted: flattener in pv/props/c20.py (docs/grammar_modularization.md; outermost override wins). Known finding D13 (override whose target file is reachable through >= 2 import paths: diamond or cycle) is excluded by that predicate; on a deterministic corpus of 84 such grammars the recorded behaviour is required exactly so that other changes in the class are still reported.",
+        "DESIGN.md section 6/C20"),
 }
 
 NOT_YET = {}
